@@ -284,4 +284,64 @@ pub proof fn lemma_sum_held_ge(l: Ledger, s: Seq<Ptr>, p: Ptr, t: Ptr)
     }
 }
 
+/// L.c03 (completeness of the orphan test): if every strong handle to every object reachable from x is a
+/// recorded adoption held by an object of that same set, and nothing outside the set records an adoption
+/// of a member, then the orphan test accepts the trace map -- so `orphaned_cycle` returns `Some` (its
+/// postcondition is an iff) and group teardown destroys every key.
+pub proof fn lemma_orphan_complete(h: &Heap, x: Ptr, m: Map<Link, usize>, order: Seq<Ptr>)
+    requires
+        h.has(x), heap_closed(h), trace_result(h, x, m, order),
+        forall|t: Ptr| order.contains(t) ==> #[trigger] h.strong_of(t) == sum_col(h, order, t),
+        forall|v: Ptr, a: Ptr| order.contains(v) && #[trigger] h.table(v).contains_key(bl(a)) ==> order.contains(a),
+    ensures all_owned(h, m),
+{
+    assert forall|l: Link| #![trigger m.contains_key(l)] m.contains_key(l) implies h.strong_of(l.ptr) <= m[l] by {
+        let t = l.ptr;
+        assert(l == fl(t));
+        assert(touched(h, order, t));
+        let i = choose|i: int| 0 <= i < order.len() && (h.table(#[trigger] order[i]).contains_key(fl(t)) || h.table(order[i]).contains_key(bl(t)));
+        assert(order.contains(order[i]));
+        if h.table(order[i]).contains_key(fl(t)) {
+            assert(reach(h, x, order[i]));
+            lemma_reach_has(h, x, order[i]);
+            assert(edge(h, order[i], t));
+            lemma_reach_step(h, x, order[i], t);
+        }
+        assert(order.contains(t));
+        assert(cnt(m, fl(t)) == sum_col(h, order, t));
+    }
+}
+
+/// every member of the reachable set other than a linkless x is a key of the trace map, so the map that
+/// group teardown receives covers the whole set (needs I2 for x itself)
+pub proof fn lemma_members_are_keys(h: &Heap, x: Ptr, m: Map<Link, usize>, order: Seq<Ptr>, v: Ptr)
+    requires
+        h.has(x), heap_closed(h), symmetric(h), trace_result(h, x, m, order), order.contains(v),
+        exists|u: Ptr| h.table(x).contains_key(fl(u)),
+    ensures m.contains_key(fl(v)),
+{
+    let sp = choose|sp: Seq<Ptr>| is_path(h, sp) && sp[0] == x && sp.last() == v;
+    if sp.len() >= 2 {
+        let i = sp.len() - 2;
+        assert(edge(h, sp[i], sp[i + 1]));
+        let pre = sp.take(i + 1);
+        assert(is_path(h, pre)) by {
+            assert forall|a: int| 0 <= a < pre.len() - 1 implies edge(h, #[trigger] pre[a], pre[a + 1]) by {
+                assert(pre[a] == sp[a] && pre[a + 1] == sp[a + 1]);
+                assert(edge(h, sp[a], sp[a + 1]));
+            }
+        }
+        assert(pre[0] == x && pre.last() == sp[i]);
+        assert(reach(h, x, sp[i]));
+        assert(order.contains(sp[i]));
+        lemma_member_is_key(h, x, m, order, sp[i], v);
+    } else {
+        assert(v == x);
+        let u = choose|u: Ptr| h.table(x).contains_key(fl(u));
+        lemma_reach_refl(h, x);
+        assert(order.contains(x));
+        lemma_member_is_key(h, x, m, order, x, u);
+    }
+}
+
 } // verus!
